@@ -10,6 +10,7 @@ verus! {
 //@include prelude/bn_model.rs
 //@include spec/ctl.rs
 //@include spec/lowlevel.rs
+//@include spec/ctl_laws.rs
 //@fmtfns
 
 // ---------------- hctl_operators_eval.rs
